@@ -122,6 +122,16 @@ def run(ctx):
                 try: U = circuit_unitary(qs, ham, t, n_steps=rng.choice([1, 2, 3]), order=order, algorithm=alg)
                 except Unsupported: continue
                 num('commuting_exact', dist(U, scipy.linalg.expm(-1j * t * H)) < 1e-8, 'circuit differs from exp(-iHt) although all pieces commute', {'algorithm': name, 'n': n, 'order': order, 'time': t}, key=(name, n, order, t, repr(ham.two_body.tolist())))
+    # ---- exactness for free fermions (no two-body part: the split-operator / low-rank pieces commute trivially)
+    for _ in range(N(5, 30)):
+        n = rng.choice([2, 3, 4]); ham = dch(n); ham = of.DiagonalCoulombHamiltonian(ham.one_body if rng.random() < 0.6 else np.real(ham.one_body), np.zeros((n, n)), ham.constant)
+        qs = cirq.LineQubit.range(n); H = Hmat(ham, n); t = rng.choice([0.3, 1.7, -0.9])
+        for order in (0, 1, 2):
+            for steps in (1, 2, 3):
+                try: U = circuit_unitary(qs, ham, t, n_steps=steps, order=order, algorithm=SPLIT_OPERATOR)
+                except Unsupported: continue
+                num('free_fermion_exact', dist(U, scipy.linalg.expm(-1j * t * H)) < 1e-8, 'SPLIT_OPERATOR circuit differs from exp(-iHt) for a Hamiltonian without two-body part (pieces commute)',
+                    {'algorithm': 'SPLIT', 'n': n, 'order': order, 'n_steps': steps, 'time': t, 'one_body': repr(ham.one_body.tolist())}, key=(n, order, steps, t, repr(ham.one_body.tolist())))
     # ---- controlled variants: identity for control 0, same evolution with the constant's phase for control 1
     for _ in range(N(6, 40)):
         n = rng.choice([2, 3]); name, alg, ham = rng.choice([('LSN', LINEAR_SWAP_NETWORK, dch(n)), ('SPLIT', SPLIT_OPERATOR, dch(n)), ('LOW_RANK', LOW_RANK, iop(1))])
